@@ -10,25 +10,31 @@ Theorem C16_allowlist_total : forall g sel rs,
 Proof. exact allowlist_total. Qed.
 Print Assumptions C16_allowlist_total.
 
-(* the allow-list contains the roots, is closed under the edge relation (field types, nested
-   messages and enums, resource references through the resource table) and contains nothing that
-   is not reachable from a root *)
+(* the allow-list API.build prunes with (traversal from the roots, then the closing loop) contains the
+   roots, is closed under the edge relation (field types, nested messages and enums, resource
+   references through the resource table) and under outermost enclosing messages of target files,
+   and contains nothing that is not reachable from a root through those two kinds of steps *)
 Theorem C16_allowlist_least_closed : forall g sel al,
   allowlist g sel = Ok al ->
   exists rs, roots g sel = Ok rs /\
     (forall r, In r rs -> In r al) /\
-    (forall a b, In a al -> edge g a b -> In b al) /\
-    (forall x, In x al -> exists r, In r rs /\ reach (succ g) r x).
+    closed g al /\ enclosed g al /\
+    (forall x, In x al -> exists r, In r rs /\ ereach g r x).
 Proof. exact allowlist_least_closed. Qed.
 Print Assumptions C16_allowlist_least_closed.
 
 (* hence it is the least such set *)
 Theorem C16_allowlist_least : forall g sel al rs (T : addr -> Prop),
   allowlist g sel = Ok al -> roots g sel = Ok rs ->
-  (forall r, In r rs -> T r) -> (forall a b, T a -> edge g a b -> T b) ->
+  (forall r, In r rs -> T r) -> (forall a b, T a -> estep g a b -> T b) ->
   forall x, In x al -> T x.
 Proof. exact allowlist_least. Qed.
 Print Assumptions C16_allowlist_least.
+
+(* has_allowlisted_descendant is what it says *)
+Theorem C16_has_desc_spec : forall al m, has_desc al m = true <-> exists d, In d (desc m) /\ In d al.
+Proof. exact has_desc_spec. Qed.
+Print Assumptions C16_has_desc_spec.
 
 (* the fuel of the polling-chain recursion never decides the result *)
 Theorem C16_expand_fuel : forall f1 f2 avail all m,
@@ -61,30 +67,20 @@ Theorem C16_dependencies_untouched : forall g pkg l out f,
 Proof. exact dependencies_untouched. Qed.
 Print Assumptions C16_dependencies_untouched.
 
-(* "every type named by a rendered declaration is rendered" is FALSE of the faithful model:
-   a nested type is allow-listed while its enclosing message is pruned (DESIGN section 9 no. 4) *)
-Theorem C16_no_dangling_refuted :
-  exists g pkg l out al d t,
-    wf_table g /\ build g pkg l = Built out /\
-    (exists s, setting_for pkg l = Some s /\ allowlist g (ls_methods s) = Ok al) /\
-    (exists m, In m (rendered_nodes out) /\ m_addr m = d /\ In t (type_refs m)) /\
-    In t (target_types g) /\ In t al /\ ~ In t (rendered out).
-Proof. exact no_dangling_refuted. Qed.
-Print Assumptions C16_no_dangling_refuted.
+(* no dangling reference, at full strength and for every outcome of API.build (full, internal,
+   selective): every type of the target package named by a field of a rendered message declaration is
+   itself rendered.  wf_table g (unique addresses) is needed because the model follows a field's type
+   by looking its address up, where the code follows an object reference; the two coincide exactly
+   when addresses are unique, which protoc guarantees and the harness checks (wf_tableb) per graph. *)
+Theorem C16_no_dangling : forall g pkg l out, wf_table g -> build g pkg l = Built out ->
+  forall m t, In m (rendered_nodes out) -> In t (type_refs m) -> In t (target_types g) -> In t (rendered out).
+Proof. exact no_dangling. Qed.
+Print Assumptions C16_no_dangling.
 
-(* what does hold: every type named by a rendered declaration is allow-listed, and rendered when
-   it is a top-level message or enum.  Missing: nested types whose outermost enclosing message is
-   not allow-listed. *)
-Theorem C16_no_dangling_partial : forall g sel al, wf_table g -> allowlist g sel = Ok al ->
-  forall f top m t, In f g -> In top (fi_msgs f) -> In (m_addr top) al ->
-    In m (flat top) -> In t (type_refs m) ->
-    In t al /\
-    (forall f' mt, In f' g -> In mt (fi_msgs f') -> m_addr mt = t ->
-       exists o', prune_file al f' = Some o' /\ In t (rendered_file o')) /\
-    (forall f', In f' g -> In t (fi_enums f') ->
-       exists o', prune_file al f' = Some o' /\ In t (rendered_file o')).
-Proof. exact no_dangling_partial. Qed.
-Print Assumptions C16_no_dangling_partial.
+Theorem C16_no_dangling_list : forall g pkg l out,
+  wf_table g -> build g pkg l = Built out -> dangling g out = [].
+Proof. exact no_dangling_list. Qed.
+Print Assumptions C16_no_dangling_list.
 
 (* generate_omitted_as_internal: nothing is omitted; internal = unlisted method of a target file *)
 Theorem C16_internal_keeps_everything : forall g pkg l s out,
@@ -175,14 +171,26 @@ Example C16_ex_polling_cycle :
 Proof. exact ex_polling_cycle. Qed.
 Print Assumptions C16_ex_polling_cycle.
 
-Example C16_ex_no_dangling_partial_hyps :
-  exists f top m t, In f ex_g /\ In top (fi_msgs f) /\ In (m_addr top) ex_al /\ In m (flat top) /\ In t (type_refs m)
-                    /\ m_addr m = P "Shelf.Slot" /\ t = P "Shelf.Tier".
-Proof. exact ex_no_dangling_partial_hyps. Qed.
-Print Assumptions C16_ex_no_dangling_partial_hyps.
+(* the former counterexample: the closing loop keeps Outer, so Outer.Inner and Outer.Kind are rendered *)
+Example C16_ex_enclosing_kept :
+  wf_table wit_g /\
+  has_desc [P "Outer.Inner"] (Msg (P "Outer") [fld_m (P "Outer.Inner")] [P "Outer.Kind"] [Msg (P "Outer.Inner") [fld_s] [] []]) = true /\
+  match allowlist0 wit_g [P "Library.GetThing"], allowlist wit_g [P "Library.GetThing"], build wit_g wit_pkg wit_l with
+  | Ok al0, Ok al, Built out =>
+      mem (P "Outer") al0 = false /\ mem (P "Outer.Inner") al0 = true /\
+      mem (P "Outer") al = true /\ mem (P "PutOuterRequest") al = false /\
+      mem (P "Outer.Inner") (rendered out) = true /\ mem (P "Outer.Kind") (rendered out) = true /\
+      option_map (fun o => map m_addr (o_top o)) (find_ofile out "google/example/library/v1/library.proto")
+        = Some [P "Outer"; P "Thing"; P "GetThingRequest"] /\
+      existsb (fun m => String.eqb (m_addr m) (P "GetThingRequest") && mem (P "Outer.Inner") (type_refs m)) (rendered_nodes out) = true /\
+      mem (P "Outer.Inner") (target_types wit_g) = true /\
+      dangling wit_g out = []
+  | _, _, _ => False
+  end.
+Proof. exact ex_enclosing_kept. Qed.
+Print Assumptions C16_ex_enclosing_kept.
 
-(* both branches of prune_file occur, a second service and a whole file vanish, and (unlike the
-   witness of C16_no_dangling_refuted) nothing dangles when enclosing messages are reachable *)
+(* both branches of prune_file occur, a second service and a whole file vanish, and nothing dangles *)
 Example C16_ex_prune :
   prune_file ex_al (mkFile "google/example/library/v1/extra.proto" true [] [Msg (P "Orphan") [fld_s] [] []] [] []) = None /\
   (match build ex_g wit_pkg (ex_l false) with
